@@ -72,8 +72,9 @@ func c09pcpSetup(r *Run, rng *Rng, shapes []c09Shape, klo, ko, sklo, thr int) (e
 	return e, true
 }
 
-// c09pcpNoCU: with an empty pool StartNewKernel divides by the number of CUs. The launch is taken by
-// the first CommandProcessor.Tick, which panics; model: `fault:div0`.
+// c09pcpNoCU: with an empty pool no work-group fits a CU: the first CommandProcessor.Tick that takes the
+// launch rejects it (`fault:oversize`, classified and judged by doTicks) — before StartNewKernel
+// could divide by the number of CUs (the pinned code panicked there: `fault:div0`).
 func c09pcpNoCU(r *Run, rng *Rng) {
 	e, ok := c09pcpSetup(r, rng, nil, rng.Pick(0, 1, 2), 1, 0, 0)
 	if !ok {
@@ -84,20 +85,9 @@ func c09pcpNoCU(r *Run, rng *Rng) {
 	}
 	gx, wx, s, v, l := c09RandLaunch(rng, true)
 	e.launch(gx, wx, s, v, l)
-	e.line = append(e.line, "tick")
-	var p bool
-	f := catch(func() { p = e.cp.Tick() })
-	switch {
-	case strings.Contains(f, "divide_by_zero"):
-		e.outs = append(e.outs, "T0,fault:div0")
-		e.dead = true
-	case f != "":
-		e.outs = append(e.outs, "T0,fault:other")
-		e.dead = true
-		e.fail("C09.tick.panic.other", "CommandProcessor.Tick panicked: %s", f)
-	default:
-		e.outs = append(e.outs, fmt.Sprintf("T%d", map[bool]int{false: 0, true: 1}[p]))
-		e.fail("C09.partition.no-cu", "a launch on a command processor without CUs was taken without the divide by zero")
+	e.doTicks(1)
+	if !e.dead {
+		e.fail("C09.partition.no-cu", "a launch on a command processor without CUs was taken without a panic")
 	}
 	e.doTicks(1) // dead: X
 	r.Count("c09.pcp.no-cu")
@@ -140,7 +130,7 @@ func c09pcpCase(r *Run, rng *Rng) {
 		c := rng.Intn(100)
 		switch {
 		case len(e.launches) < maxLaunch && (c < 12 || burst && c < 40 || len(e.launches) == 0):
-			gx, wx, s, v, l := c09RandLaunch(rng, burst)
+			gx, wx, s, v, l := e.randLaunch(rng, burst)
 			e.launch(gx, wx, s, v, l)
 		case c < 60:
 			e.doTicks(1)
